@@ -157,6 +157,140 @@ func (c *Ctx) classifyMapLoop(l *mrLoop) {
 	}
 	locals := declaredIn(info, l.rs.Body)
 	c.mrScan(l, info, l.rs.Body, t, locals, 0, l.rs, l.body)
+	c.mrCarried(l, info, locals)
+}
+
+// receiverMapAccess: map fields of its receiver that a repository method stores into / indexes
+// (for an interface method: the union over the repository types of the same package having a
+// method of that name).
+func (c *Ctx) receiverMapAccess(fn *types.Func) (writes, reads map[string]bool) {
+	writes, reads = map[string]bool{}, map[string]bool{}
+	var impls []*FuncInfo
+	if fi := c.FuncOfObj(fn); fi != nil {
+		impls = append(impls, fi)
+	} else if fn.Pkg() != nil {
+		for _, fi := range c.AllFuncs(strings.TrimPrefix(strings.TrimPrefix(fn.Pkg().Path(), modPath), "/")) {
+			if fi.Obj.Name() == fn.Name() && fi.Decl.Recv != nil {
+				impls = append(impls, fi)
+			}
+		}
+	}
+	for _, fi := range impls {
+		info := fi.Pkg.TypesInfo
+		r := recvObj(info, fi.Decl)
+		if r == nil {
+			continue
+		}
+		isRecvMap := func(e ast.Expr) (string, bool) {
+			if fv, x := fieldOfSel(info, e); fv != nil && identObj(info, x) == r {
+				if _, ok := fv.Type().Underlying().(*types.Map); ok {
+					return fv.Name(), true
+				}
+			}
+			return "", false
+		}
+		ast.Inspect(fi.Decl.Body, func(n ast.Node) bool {
+			switch x := n.(type) {
+			case *ast.AssignStmt:
+				for _, l := range x.Lhs {
+					if ix, ok := unparen(l).(*ast.IndexExpr); ok {
+						if f, ok := isRecvMap(ix.X); ok {
+							writes[f] = true
+						}
+					}
+				}
+			case *ast.IndexExpr:
+				if f, ok := isRecvMap(x.X); ok {
+					reads[f] = true
+				}
+			case *ast.CallExpr:
+				if id, ok := x.Fun.(*ast.Ident); ok && id.Name == "delete" && len(x.Args) == 2 {
+					if f, ok := isRecvMap(x.Args[0]); ok {
+						writes[f] = true
+					}
+				}
+			}
+			return true
+		})
+		// an index on the left-hand side of an assignment was counted as a read too: remove pure stores
+		pure := map[string]bool{}
+		ast.Inspect(fi.Decl.Body, func(n ast.Node) bool {
+			if ix, ok := n.(*ast.IndexExpr); ok {
+				if f, ok := isRecvMap(ix.X); ok {
+					st := stackTo(fi.Decl.Body, ix)
+					if len(st) >= 2 {
+						if as, ok := st[len(st)-2].(*ast.AssignStmt); ok {
+							for _, l := range as.Lhs {
+								if unparen(l) == ast.Expr(ix) {
+									return true
+								}
+							}
+						}
+					}
+					pure[f] = true
+				}
+			}
+			return true
+		})
+		for f := range reads {
+			if !pure[f] {
+				delete(reads, f)
+			}
+		}
+	}
+	return
+}
+
+// mrCarried (S7): inside the loop, a container that outlives the iteration is both written (under
+// a key that is not the iteration key) and read through repository methods: later iterations see
+// what earlier ones stored, so the result depends on the iteration order.
+func (c *Ctx) mrCarried(l *mrLoop, info *types.Info, locals map[types.Object]bool) {
+	type acc struct {
+		w, r   map[string]bool
+		wp, rp token.Pos
+		wname  string
+		rname  string
+	}
+	byRecv := map[types.Object]*acc{}
+	for _, call := range callsIn(l.rs.Body, true) {
+		sel, ok := unparen(call.Fun).(*ast.SelectorExpr)
+		if !ok {
+			continue
+		}
+		x := identObj(info, sel.X)
+		if x == nil || locals[x] {
+			continue
+		}
+		fn := calleeOf(info, call)
+		if fn == nil || !inRepo(fn) {
+			continue
+		}
+		w, r := c.receiverMapAccess(fn)
+		if len(w) == 0 && len(r) == 0 {
+			continue
+		}
+		a := byRecv[x]
+		if a == nil {
+			a = &acc{w: map[string]bool{}, r: map[string]bool{}}
+			byRecv[x] = a
+		}
+		for f := range w {
+			a.w[f] = true
+			a.wp, a.wname = call.Pos(), fn.Name()
+		}
+		for f := range r {
+			a.r[f] = true
+			a.rp, a.rname = call.Pos(), fn.Name()
+		}
+	}
+	for x, a := range byRecv {
+		for f := range a.w {
+			if a.r[f] {
+				_, ln := c.pos(a.rp)
+				l.sinks = append(l.sinks, mrSink{a.wp, "S7", fmt.Sprintf("%s.%s() stores into %s.%s and %s.%s() (line %d) reads it inside the same loop over a map: what a later iteration finds depends on which entries came first", x.Name(), a.wname, x.Name(), f, x.Name(), a.rname, ln)})
+			}
+		}
+	}
 }
 
 // declaredIn returns the objects declared inside n (they do not outlive an iteration).
